@@ -368,3 +368,28 @@ package ugo
 //@ loop 0 invariant forall k int :: 0 <= k && k < verifIdx ==> specDisabled(st, names[k])
 //@ modifies st.disabledBuiltins, st.disabledBuiltins[*], st.store[*]
 //@ property C13
+
+// ---------------------------------------------------------------------------
+// C20: scalar values cross the Go boundary unchanged, in both directions.
+
+//@ lemma objectRoundTrip
+//@ vars o Object
+//@ requires specScalar(o) && specKindOf(o) != kBytes
+//@ ensures specObjectRoundTrip(o)
+//@ cases o: Int, Uint, Float, Char, Bool, String, *UndefinedType
+//@ property C20
+
+//@ lemma goRoundTrip
+//@ vars v any
+//@ ensures specGoRoundTrip(v)
+//@ cases v: int64, uint64, float64, rune, bool, string
+//@ property C20
+
+//@ lemma goNilRoundTrip
+//@ ensures specGoRoundTrip(nil)
+//@ property C20
+
+//@ lemma goWidths
+//@ vars a int, b uint, c uintptr, d byte, e float32
+//@ ensures specIntWidths(a, b, c, d, e)
+//@ property C20
